@@ -377,7 +377,9 @@ class Interpreter(BaseInterpreter[TContext, TEvent]):
             return
 
         # 📦 Use the centralized helper from the base class to normalize the input.
-        event_obj = self._prepare_event(event_or_type, **payload)
+        event_obj = self._stamp_completion(
+            self._prepare_event(event_or_type, **payload)
+        )
 
         # 📥 Place the standardized event object into the async queue.
         await self._event_queue.put(event_obj)
